@@ -1300,7 +1300,6 @@ def builder_glue(funcs, text):
     for readers in ("none", "some"):
         for script in (("set",), ("set", "clear"), ("clear",), ()):
             run = Run(funcs, inline=inline, extra_models=models)
-            decls += run.ex.decls
             cell = [fresh_builder(run, readers)]
             paths_pc = [[]]
             ok = True
@@ -1317,6 +1316,7 @@ def builder_glue(funcs, text):
                 continue
             mark = len(run.log)
             res = run.ex.run(build, [cell[0]])
+            decls += run.ex.decls
             for (pc, rv, _env) in res:
                 n += 1
                 want = "CHECKER" if script and script[-1] == "set" else None
